@@ -9,7 +9,7 @@ sed -i "$EXPR" "$SCR/$FILE"
 if diff -q "/repo/$FILE" "$SCR/$FILE" >/dev/null; then echo "sed expression changed nothing"; rm -rf "$SCR"; exit 3; fi
 diff -u "/repo/$FILE" "$SCR/$FILE" | head -20 || true
 set +e
-VERIF_REPO="$SCR" /verif/check "$PID" --tier "$TIER" > "$SCR/out.txt" 2>&1
+VERIF_OUT="$SCR" VERIF_REPO="$SCR" /verif/check "$PID" --tier "$TIER" > "$SCR/out.txt" 2>&1
 RC=$?
 grep -E "VIOLATION|KNOWN-FINDING|MACHINERY|OUTSIDE|MODEL-DRIFT|violations=" "$SCR/out.txt" | head -8
 echo "exit code $RC"
